@@ -441,6 +441,171 @@ fn synth_text(kind: &str, seed: u64, n: usize) -> Vec<u8> {
     s.into_bytes()
 }
 
+/// text lines that *match* the converters' grammars (6 digit fractions, years 2xxx, ...) and are hostile in what the
+/// grammar leaves open: magnitudes, non-ASCII characters (incl. Unicode white space where `\s` is accepted), lengths
+/// around the u16 limit of a DLT message, dates before 1970 / far in the future / several of them, colliding tags
+fn synth_text2(kind: &str, seed: u64, n: usize) -> Vec<u8> {
+    let mut rng = Rng::new(seed);
+    let rng = &mut rng;
+    let mut s = String::new();
+    fn ws(rng: &mut Rng) -> &'static str {
+        *rng.pick(&[" ", " ", " ", " ", " ", "\t", "  ", "\u{a0}", "\u{2003}", "\u{3000}"])
+    }
+    fn long(rng: &mut Rng) -> usize {
+        *rng.pick(&[300usize, 65400, 65499, 65510, 65534, 65535, 65536, 70000])
+    }
+    fn word(rng: &mut Rng, allow_long: bool) -> String {
+        match rng.below(if allow_long { 14 } else { 12 }) {
+            0 => "\u{e9}".to_string(),
+            1 => "ab\u{e9}".to_string(),
+            2 => "a\u{4e2d}".to_string(),
+            3 => "\u{1f600}".to_string(),
+            4 => "".to_string(),
+            5 => "abcd".to_string(),
+            6 => "abcde".to_string(),
+            7 => "abcdf".to_string(),
+            8 => "a b".to_string(),
+            9 => "x\u{a0}y".to_string(),
+            10 => "Tag".to_string(),
+            11 => "\u{e4}\u{f6}\u{fc}\u{df}\u{20ac}".to_string(),
+            _ => rng.pick(&["t", "\u{e9}", "ab"]).repeat(long(rng)),
+        }
+    }
+    match kind {
+        "asc" => {
+            let dates = [
+                "date Tue Apr 12 08:55:37 AM 2022",
+                "date Wed Dec 31 11:59:59 PM 1969",
+                "date Thu Jan 1 00:00:00 AM 1970",
+                "date Sat Nov 18 08:55:37 AM 2023",
+                "date Wed Nov 15 00:00:01 AM 2023",
+                "date Mon Jan 1 00:00:00 AM 0001",
+                "date Fri Dec 31 11:59:59 PM 9999",
+                "date Sun Feb 7 06:28:15 AM 2106",
+                "date Thu Apr 20 10:25:26.500 pm 2023",
+            ];
+            let tss = [
+                "0.000100", "0.985210", "1.000000", "400000.000000", "4294967.295000", "4294967.296000", "42949672.960000", "200000.000000",
+                "9223372036854.775807", "9999999999999.000000", "9223372036854.999999", "-0.000100", "-5.000000", "-9999999999999.000000",
+                "99999999999999999999.000000", "18446744073709.551615",
+            ];
+            if !rng.chance(3) {
+                s.push_str(*rng.pick(&dates));
+                s.push('\n');
+            }
+            s.push_str(*rng.pick(&["base hex timestamps absolute\n", "base dec timestamps relative\n", ""]));
+            for _ in 0..n {
+                let t = rng.pick(&tss).to_string();
+                let ch = rng.pick(&["1", "2", "0", "255", "256", "99999999999999999999"]).to_string();
+                let id = rng.pick(&["36f", "7ff", "18ff0000x", "1fffffffx", "ffffffffffffffffffff", "x", "0"]).to_string();
+                let dl = match rng.below(10) {
+                    0 => long(rng).to_string(),
+                    1 => "4294967296".to_string(),
+                    2 => "0".to_string(),
+                    3 => "64".to_string(),
+                    _ => rng.pick(&["1", "2", "8"]).to_string(),
+                };
+                let data = match rng.below(12) {
+                    0 => "a\u{e9} x".to_string(),
+                    1 => "1\u{e9} 12".to_string(),
+                    2 => "\u{e9}".to_string(),
+                    3 => "".to_string(),
+                    4 => {
+                        let k = dl.parse::<usize>().unwrap_or(8).min(70000);
+                        "00 ".repeat(k)
+                    }
+                    5 => "zz 1 100 ".to_string(),
+                    6 => "0\u{a0}11\u{2003}22".to_string(),
+                    _ => "01 02 03 04 05 06 07 08 ".to_string(),
+                };
+                let line = match rng.below(12) {
+                    0 => format!("{}\n", rng.pick(&dates)),
+                    1 => format!("// BusMapping: CAN {} = {}\n", rng.pick(&["1", "2", "255", "256", "x"]), word(rng, true)),
+                    2 => format!("//BusMapping: CANFD{}{} ={}\n", ws(rng), rng.pick(&["1", "7"]), word(rng, true)),
+                    3 => format!("{}{}CANFD{}{}{}Rx{}{}{}1{}0{}d{}{}{}{} 103 0 0 0 0 0\n", t, ws(rng), ws(rng), ch, ws(rng), ws(rng), id, ws(rng), ws(rng), ws(rng), ws(rng), dl, ws(rng), data),
+                    4 => format!("{}{}CANFD{}{}{}Tx{}ErrorFrame {}\n", t, ws(rng), ws(rng), ch, ws(rng), ws(rng), word(rng, false)),
+                    5 => format!("{}{}{}{}ErrorFrame ECC: {}\n", t, ws(rng), ch, ws(rng), word(rng, false)),
+                    _ => format!("{}{}{}{}{}{}{}{}d{}{}{}{}\n", t, ws(rng), ch, ws(rng), id, ws(rng), rng.pick(&["Rx", "Tx"]), ws(rng), ws(rng), dl, ws(rng), data),
+                };
+                s.push_str(&line);
+            }
+        }
+        "txt" => {
+            for _ in 0..n {
+                let tag = word(rng, true);
+                let line = match rng.below(8) {
+                    0 | 1 | 2 => format!(
+                        "{}{}{}{}{} {} {}: msg {}\n",
+                        rng.pick(&["1.000", "    18.062", "18446744073709551615.999999", "99999999999999999999.9", "0.0", "4294967296.000000001", "1.99999999999999999999"]),
+                        ws(rng),
+                        rng.pick(&["1", "0", "4294967296", "99999999999999999999"]),
+                        ws(rng),
+                        rng.pick(&["2", "65536", "99999999999999999999"]),
+                        rng.pick(&["I", "E", "V", "x", "Z"]),
+                        tag,
+                        word(rng, true)
+                    ),
+                    3 | 4 | 5 => format!(
+                        "{}-{} {}:{}:{}.{}{}{}{}{} {} {}: text {}\n",
+                        rng.pick(&["01", "06", "12", "13", "00", "02"]),
+                        rng.pick(&["01", "13", "29", "31", "00"]),
+                        rng.pick(&["00", "12", "23", "24"]),
+                        rng.pick(&["00", "59", "60"]),
+                        rng.pick(&["00", "59", "60", "61"]),
+                        rng.pick(&["000", "999", "1", "123456", "123456789", "99999999999999999999"]),
+                        ws(rng),
+                        rng.pick(&["1", "0", "4294967296"]),
+                        ws(rng),
+                        rng.pick(&["2", "99999999999999999999"]),
+                        rng.pick(&["V", "D", "I", "W", "E", "F", "S", "\u{e9}"]),
+                        tag,
+                        word(rng, false)
+                    ),
+                    6 => "--------- beginning of main\n".to_string(),
+                    _ => format!("{}\n", word(rng, true)),
+                };
+                s.push_str(&line);
+            }
+        }
+        _ => {
+            // now and then: tags that use up the 4 character abbreviations one after the other
+            let collide = rng.chance(6);
+            for i in 0..n {
+                let tag = if collide {
+                    match i % 5 {
+                        0 => "abcd".to_string(),
+                        1 => format!("abc{}", i % 10),
+                        2 => "abcde".to_string(),
+                        3 => "abcdf".to_string(),
+                        _ => format!("ab{}", 10 + i % 90),
+                    }
+                } else {
+                    word(rng, true)
+                };
+                let line = match rng.below(8) {
+                    0 => "-------------------------------- live log setup --------------------------------\n".to_string(),
+                    1 => format!("[2024-03-09 23:01:31.627] [{}] [{}] {}\n", rng.pick(&["\u{e9}\u{e9}\u{e9}", "a\u{4e2d}b", "   ", "]]]", "\u{1f600}12"]), tag, word(rng, true)),
+                    _ => format!(
+                        "[{}-{}-{} {}:{}:{}.{}] [{}] [{}] message {}\n",
+                        rng.pick(&["2024", "2000", "2999", "2038", "2106"]),
+                        rng.pick(&["03", "13", "00", "02", "12"]),
+                        rng.pick(&["09", "29", "31", "32", "00"]),
+                        rng.pick(&["23", "24", "00"]),
+                        rng.pick(&["01", "59", "60"]),
+                        rng.pick(&["31", "60", "61"]),
+                        rng.pick(&["627", "000", "999"]),
+                        rng.pick(&["INF", "ERR", "WRN", "DBG", "XXX"]),
+                        tag,
+                        word(rng, false)
+                    ),
+                };
+                s.push_str(&line);
+            }
+        }
+    }
+    s.into_bytes()
+}
+
 fn base_bytes(kind: &str, base: &str) -> Vec<u8> {
     if let Some(r) = base.strip_prefix('F') {
         let f: Vec<&str> = r.split(':').collect();
@@ -457,6 +622,43 @@ fn base_bytes(kind: &str, base: &str) -> Vec<u8> {
         } else {
             synth_text(kind, seed, n)
         }
+    } else if let Some(r) = base.strip_prefix('N') {
+        // n starts of segmented SOME/IP transfers (never continued), each announcing 999 chunks of 1000 bytes - just below
+        // the plugin's sanity limit of 1 MB
+        let n: u32 = r.parse().unwrap_or(1);
+        let mut out = vec![];
+        for i in 0..n {
+            let h = Hdr { serial: false, ecu: 1, recv: 1_700_000_000_000_000 + i as u64 * 1000, ts: i * 10, be: false, mcnt: i as u8, vmm: (2 << 1) | (1 << 4) | 1, noar: 6, apid: id4("SOME"), ctid: id4("TC"), weid: true, wsid: false, wtms: true, ext: true };
+            let payload = enc_args(
+                false,
+                &[(DLT_TYPE_INFO_STRG, b"NWST\0".to_vec()), (U32T, i.to_le_bytes().to_vec()), (DLT_TYPE_INFO_RAWD, vec![10, 0, 0, 1, 0x30, 0x39, 0, 1, 1, 2, 3, 4]), (U32T, 0u32.to_le_bytes().to_vec()), (U16T, 999u16.to_le_bytes().to_vec()), (U16T, 1000u16.to_le_bytes().to_vec())],
+            );
+            out.extend_from_slice(&enc_msg(&h, &payload));
+        }
+        out
+    } else if let Some(r) = base.strip_prefix('Z') {
+        let f: Vec<&str> = r.split(':').collect();
+        let seed: u64 = f[0].parse().unwrap_or(1);
+        let n: usize = f.get(1).and_then(|x| x.parse().ok()).unwrap_or(10);
+        synth_text2(kind, seed, n)
+    } else if let Some(r) = base.strip_prefix('T') {
+        // the 10000 tags that occupy every 4 character abbreviation of `abcd`, then `n` more that abbreviate to it
+        let n: usize = r.parse().unwrap_or(1);
+        let mut tags: Vec<String> = vec!["abcd".to_string()];
+        tags.extend((1..10).map(|i| format!("abc{}", i)));
+        tags.extend((10..100).map(|i| format!("ab{}", i)));
+        tags.extend((100..1000).map(|i| format!("a{}", i)));
+        tags.extend((1000..10000).map(|i| format!("{}", i)));
+        tags.extend((0..n).map(|i| format!("abcd{}", (b'e' + (i % 20) as u8) as char)));
+        let mut t = String::new();
+        for tag in &tags {
+            if kind == "txt" {
+                t.push_str(&format!("1.000 1 2 I {}: msg\n", tag));
+            } else {
+                t.push_str(&format!("[2024-01-01 10:00:00.000] [INF] [{}] msg\n", tag));
+            }
+        }
+        t.into_bytes()
     } else if let Some(r) = base.strip_prefix('H') {
         unhex(r)
     } else {
@@ -570,8 +772,10 @@ fn plugins() -> Vec<Box<dyn Plugin + Send>> {
 }
 
 fn chain(kind: &str, data: Vec<u8>) -> String {
+    // the reference time for time stamps (the adlt binary passes the reception time of the first message of the first file): for every second input
+    let first_reception_time_us = if data.len() % 2 == 0 { Some(1_700_000_000_000_000) } else { None };
     let reader = adlt::utils::LowMarkBufReader::new(std::io::Cursor::new(data), 512 * 1024, DLT_MIN_PARSE_BUFFER_SIZE);
-    let it = adlt::utils::get_dlt_message_iterator(kind, 0, reader, adlt::utils::get_new_namespace(), None, Some(1_700_000_000_000_000), None);
+    let it = adlt::utils::get_dlt_message_iterator(kind, 0, reader, adlt::utils::get_new_namespace(), first_reception_time_us, Some(1_700_000_000_000_000), None);
     let msgs: Vec<DltMessage> = it.take(100_000).collect();
     let n = msgs.len();
     let mut sink: Vec<u8> = Vec::with_capacity(1 << 16);
@@ -650,7 +854,8 @@ fn chain(kind: &str, data: Vec<u8>) -> String {
 fn case_bytes(case: &str) -> (String, Vec<u8>) {
     let parts: Vec<&str> = case.split(" | ").collect();
     let kind = parts.first().copied().unwrap_or("dlt").to_string();
-    let d = base_bytes(&kind, parts.get(1).copied().unwrap_or(""));
+    // (a case with no ops ends in " | "; the blank may have been trimmed away)
+    let d = base_bytes(&kind, parts.get(1).copied().unwrap_or("").trim_end_matches(" |"));
     (kind, apply_ops(d, parts.get(2).copied().unwrap_or("")))
 }
 
@@ -819,21 +1024,21 @@ fn gen(rng: &mut Rng, tier: u32) -> String {
             if rng.chance(3) {
                 format!("F{}", rng.pick(&["can_example1.asc", "can_example1b.asc", "can_example1c.asc", "can_example2a.asc", "can_example2b.asc", "can_example3.asc"]))
             } else {
-                format!("Y{}:{}", rng.below(1 << 40), 1 + rng.below(if big { 80 } else { 25 }))
+                format!("{}{}:{}", rng.pick(&["Y", "Z", "Z"]), rng.below(1 << 40), 1 + rng.below(if big { 80 } else { 25 }))
             }
         }
         "txt" => {
             if rng.chance(3) {
                 format!("F{}", rng.pick(&["logcat_example1.txt", "logcat_example2.txt", "logcat_example3.txt", "logcat_example4.txt"]))
             } else {
-                format!("Y{}:{}", rng.below(1 << 40), 1 + rng.below(if big { 80 } else { 25 }))
+                format!("{}{}:{}", rng.pick(&["Y", "Z", "Z"]), rng.below(1 << 40), 1 + rng.below(if big { 80 } else { 25 }))
             }
         }
         _ => {
             if rng.chance(3) {
                 "Fgenlog_example1.log".to_string()
             } else {
-                format!("Y{}:{}", rng.below(1 << 40), 1 + rng.below(if big { 80 } else { 25 }))
+                format!("{}{}:{}", rng.pick(&["Y", "Z", "Z"]), rng.below(1 << 40), 1 + rng.below(if big { 80 } else { 25 }))
             }
         }
     };
